@@ -571,6 +571,19 @@ class CallsMixin:
             if a.ty == "str" or (a.k == "call" and a.a[0] in ("rstrip", "strip", ".readline")):
                 return T("call", "int", (a,), ty="int")
             return un("int", a)
+        if name == "int.from_bytes":
+            # value of a whole byte string: exact only for a slice of constant extent, otherwise opaque (and it
+            # then depends on the full extent of its argument, which the independence rule inspects)
+            buf = args[0]
+            order = args[1] if len(args) > 1 else kw.get("byteorder", C("big"))
+            if buf.k == "slice" and buf.a[1].k == "const" and buf.a[2].k == "const" and isinstance(buf.a[2].a[0], int) \
+                    and order.k == "const" and order.a[0] == "big":
+                n = buf.a[2].a[0] - buf.a[1].a[0]
+                val = C(0)
+                for i in range(max(n, 0)):
+                    val = binop("|", val, binop("<<", self.do_index(buf, C(i), env, node), C(8 * (n - 1 - i))))
+                return val
+            return T("call", "int.from_bytes", (buf,), ty="int")
         if name == "bool":
             return truthy(args[0]) if args else FALSE
         if name == "float":
